@@ -65,7 +65,7 @@ def parse_rw(payload):
     if '==>' not in payload:
         raise UnitError('bad //@rw: ' + payload)
     a, b = payload.split('==>', 1)
-    return a.strip(), b.strip().replace('\\n', '\n')
+    return a.strip(), b.strip().replace('\\n', '\n').replace('{SP}', ' ')
 
 
 def split_spec(spec):
@@ -78,6 +78,20 @@ def split_spec(spec):
         if cur is not None:
             cur.append(line)
     return '\n'.join(req), '\n'.join(rest)
+
+
+_CMP = {'!=': 'f64_ne', '==': 'f64_eq', '>=': 'f64_ge', '<=': 'f64_le', '>': 'f64_gt', '<': 'f64_lt'}
+
+# named generic rewrites (DESIGN.md §3.2 rule 2): the operator that is in the code picks the shim, so a changed
+# operator is still extracted and then fails the contract instead of losing the anchor
+BUILTINS = {
+    # comparison of an f64 place with a float literal:  *n != 0.0  ->  f64_ne(*n, 0.0)
+    'f64cmp': (r'(\*\w+|\b\w+)\s*(!=|==|>=|<=|>|<)\s*(-?\d+\.\d+)\b',
+               lambda m: '%s(%s, %s)' % (_CMP[m.group(2)], m.group(1), m.group(3))),
+    # Val::Number(a + b)  ->  Val::Number(f64_binop('+', *a, *b))   (a, b are `&f64` bindings)
+    'f64arith': (r'Val::Number\((\w+) ([-+*/]) (\w+)\)',
+                 lambda m: "Val::Number(f64_binop('%s', *%s, *%s))" % (m.group(2), m.group(1), m.group(3))),
+}
 
 
 class Block:
@@ -150,6 +164,10 @@ def build(unit_name, outdir, global_rw=()):
             cur.d['nocanary'] = True
         elif key in ('rw', 'rw?'):
             cur.d['rw'].append(parse_rw(arg) + (key == 'rw',))
+        elif key == 'builtin':
+            if arg not in BUILTINS:
+                raise UnitError('%s: unknown builtin rewrite %s' % (tpath, arg))
+            cur.d['rw'].append(BUILTINS[arg] + (False,))
         elif key == 'sig':
             cur.d['sig'] = arg + '\n' if arg else ''
             payload_key = ('sig',)
